@@ -288,6 +288,38 @@ func ruleGuardBeforePull(c *Ctx, r *R) {
 			}
 			return 0, false
 		}
+		// One(ctx, s) decided on Collect(ctx, First(s, 2)): the source is only ever handed to First with a constant bound, and
+		// First never pulls more than that (its own obligations above) - the bound is the worst case, whatever loop drains the
+		// wrapper
+		viaFirst := -1
+		if sp := streamParamOf(fn); sp != nil {
+			only := true
+			for _, ref := range refsOf(sp) {
+				switch x := ref.(type) {
+				case *ssa.DebugRef:
+				case *ssa.Call:
+					cal := staticCallee(&x.Call)
+					k, isK := (ssa.Value)(nil), false
+					if cal != nil && fname(cal) == "First" && rootFn(cal).Pkg == pkgOne && len(x.Call.Args) == 2 && x.Call.Args[0] == ssa.Value(sp) {
+						k, isK = x.Call.Args[1], true
+					}
+					if kc, isC := k.(*ssa.Const); isK && isC && kc.Value != nil && viaFirst < 0 {
+						viaFirst = int(kc.Int64())
+					} else {
+						only = false
+					}
+				default:
+					only = false
+				}
+			}
+			if !only {
+				viaFirst = -1
+			}
+		}
+		if viaFirst >= 0 {
+			r.ok(viaFirst >= 1 && viaFirst <= 2, name+"|pull-count", fn.Pos(), "One needs at most two pulls to decide (it drains First(s, "+itoa(viaFirst)+"))")
+			continue
+		}
 		for _, e := range pf.Exits(fn, ss(0)) {
 			e.States.each(func(q int) {
 				if q > worst {
@@ -1072,7 +1104,6 @@ func dequeLenPositive(fn *ssa.Function, b *ssa.BasicBlock, recv ssa.Value) bool 
 	return false
 }
 
-
 // fieldOnlyCountsUp: v is a load of an integer field of a struct type of the module, and every store to that field anywhere in
 // its package is a non-negative constant or the field's own value plus a positive constant.
 func fieldOnlyCountsUp(c *Ctx, v ssa.Value) bool {
@@ -1204,4 +1235,17 @@ func takeLikeCall(call *ssa.Call) (string, bool) {
 		return "", false
 	}
 	return fieldName(fa.X.Type(), fa.Field), true
+}
+
+// streamParamOf: the parameter of fn that is a stream or an iterator (the first one).
+func streamParamOf(fn *ssa.Function) *ssa.Parameter {
+	for _, p := range fn.Params {
+		if n, ok := p.Type().(*types.Named); ok && n.Obj().Pkg() != nil {
+			switch n.Obj().Name() {
+			case "Stream", "Iterator", "Peekable":
+				return p
+			}
+		}
+	}
+	return nil
 }
